@@ -6,6 +6,7 @@ import (
 	"sort"
 	"strings"
 	"testing/synctest"
+	"time"
 
 	hg "github.com/mosaicnetworks/babble/src/hashgraph"
 	"github.com/mosaicnetworks/babble/src/net"
@@ -174,6 +175,57 @@ func (c *Cluster) nonBabblingStep(s *Step) {
 		return
 	case "maintenance":
 		c.maintenanceStep(c.nodeAt(s.A))
+		return
+	case "suspend-busy":
+		// Suspend() while one of the node's own routines is still in flight (a
+		// JoinRequest handler waiting for its promise, registered in the node's
+		// wait group as doBackgroundWork does): Suspend waits for it - up to the
+		// join time-out. A valid EagerSync that arrives during that wait must
+		// already be refused.
+		a, b := c.nodeAt(s.A), c.nodeAt(s.B)
+		if a == nil || b == nil || a == b || !a.running() || !b.running() || a.state() != _state.Babbling || b.state() != _state.Babbling || a.isObserver || b.isObserver {
+			return
+		}
+		if (a.task != nil && !a.task.done) || c.parkedCount(a) > 0 || len(c.liveBabbling()) < 3 {
+			return
+		}
+		diff, e := b.core().EventDiff(a.core().KnownEvents())
+		if e != nil || len(diff) == 0 {
+			return
+		}
+		if len(diff) > 10 {
+			diff = diff[:10]
+		}
+		wire, e := b.core().ToWire(diff)
+		if e != nil {
+			return
+		}
+		k := deriveKey(c.seed, 400+r.Intn(50))
+		itx := hg.NewInternalTransactionJoin(*newPeerFromKey(k))
+		itx.Sign(k)
+		nd := a.node
+		nd.SimGoProcessRPC(net.RPC{Command: &net.JoinRequest{InternalTransaction: itx}, RespChan: make(chan net.RPCResponse, 1)})
+		synctest.Wait()
+		var eagerErr error
+		answered := false
+		go func() {
+			time.Sleep(5 * time.Millisecond)
+			ch := make(chan net.RPCResponse, 1)
+			req := &net.EagerSyncRequest{}
+			jsonCopy(&net.EagerSyncRequest{FromID: b.id, Events: wire}, req)
+			nd.SimGoProcessRPC(net.RPC{Command: req, RespChan: ch})
+			resp := <-ch
+			eagerErr = resp.Error
+			answered = true
+		}()
+		before := c.restrictedDigest(a)
+		nd.Suspend()
+		synctest.Wait()
+		a.explicitSuspend = true
+		c.stats.probe("c17-suspend-with-routine-in-flight")
+		if answered && eagerErr == nil {
+			c.violate("C17", "refusal", "request-served-while-suspending", "node %d: Suspend() had been called (one of the node's routines was still in flight) and a valid EagerSyncRequest with %d events that arrived 5 ms later was accepted: %s -> %s", a.idx, len(wire), before, c.restrictedDigest(a))
+		}
 		return
 	case "starve":
 		// composite: everybody but a and one partner b falls silent; a and b keep
@@ -642,6 +694,15 @@ func init() {
 								break // let the session last a few steps
 							}
 							return &Step{Op: "byz", Kind: "maintenance", A: n.idx}
+						}
+					}
+				case x == 5:
+					hs := c.liveBabbling()
+					if len(hs) >= 3 {
+						a := hs[c.gen.Intn(len(hs))]
+						b := hs[c.gen.Intn(len(hs))]
+						if a != b {
+							return &Step{Op: "byz", Kind: "suspend-busy", A: a.idx, B: b.idx}
 						}
 					}
 				case x == 4 && c.cfg.SuspendLimit <= 20:
